@@ -1,6 +1,7 @@
 package rules
 
 import (
+	"go/types"
 	"fmt"
 	"go/token"
 	"strings"
@@ -188,10 +189,52 @@ func runC09(c *Ctx) {
 		// bytes come from the marshal call of this function
 		local := &origin.Tracer{}
 		dataOK := false
+		// the marshal call itself, or a helper of the repository whose data result
+		// is the marshal call's (nil on its error path)
+		var fromMarshal func(v ssa.Value, d int) bool
+		fromMarshal = func(v ssa.Value, d int) bool {
+			rs := local.Roots(v)
+			if len(rs) == 0 || d > 2 {
+				return false
+			}
+			for _, x := range rs {
+				switch {
+				case x.Kind == "call" && strings.HasPrefix(x.Name, w.mars):
+				case x.Kind == "const" && d > 0:
+				case x.Kind == "call":
+					cc, _ := x.V.(*ssa.Call)
+					if ex, isEx := x.V.(*ssa.Extract); isEx {
+						cc, _ = ex.Tuple.(*ssa.Call)
+					}
+					if cc == nil {
+						return false
+					}
+					g := cc.Common().StaticCallee()
+					if g == nil || g.Blocks == nil || !c.P.IsRepoFunc(g) {
+						return false
+					}
+					some := false
+					for _, ret := range ssau.ReturnsOf(g) {
+						if ssau.IsNilConst(ret.Results[0]) {
+							continue
+						}
+						if !fromMarshal(ret.Results[0], d+1) {
+							return false
+						}
+						some = true
+					}
+					if !some {
+						return false
+					}
+				default:
+					return false
+				}
+			}
+			return true
+		}
 		for _, a := range call.Common().Args {
-			if rt, ok := local.Has(a, func(x origin.Root) bool { return x.Kind == "call" && strings.HasPrefix(x.Name, w.mars) }); ok {
-				_ = rt
-				dataOK = len(local.Roots(a)) == 1
+			if _, isBytes := a.Type().Underlying().(*types.Slice); isBytes && fromMarshal(a, 0) {
+				dataOK = true
 			}
 		}
 		r.Check(dataOK, "O-2", w.key+"#writes-marshalled-bytes", c.P.Pos(call.Pos()), "the bytes written are exactly the result of "+shortName(w.mars), "the bytes handed to the atomic writer are not (only) the marshalled content")
